@@ -202,6 +202,21 @@ func init() {
 		mutant{Name: "name-rule-goos-prefix-keeps-other-os", Prop: "C17", File: "interp/build.go", Old: "\t\t\treturn knownOs[y] && y != ctx.GOOS\n", New: "\t\t\treturn false\n", Rule: "R17.7", Key: "skipFile/keep-verdict#2/last-element-decided"},
 		mutant{Name: "name-rule-test-suffix-kept", Prop: "C17", File: "interp/build.go", Old: "\tp = strings.TrimSuffix(p, \"_test\")\n", New: "", Rule: "R17.7", Key: "skipFile/test-suffix-removed-before-split"},
 		mutant{Name: "benign-name-rule-in-gobuild-shape", Prop: "C17", File: "interp/build.go", Old: "\t\tswitch x, y := a[last-1], a[last]; {\n\t\tcase x == ctx.GOOS:\n\t\t\tif knownArch[y] {\n\t\t\t\treturn y != ctx.GOARCH\n\t\t\t}\n\t\t\treturn knownOs[y] && y != ctx.GOOS\n\t\tcase knownOs[x] && knownArch[y]:\n\t\t\treturn true\n\t\tcase knownArch[y] && y != ctx.GOARCH:\n\t\t\treturn true\n\t\tcase knownOs[y] && y != ctx.GOOS:\n\t\t\treturn true\n\t\tdefault:\n\t\t\treturn false\n\t\t}\n", New: "\t\tif x, y := a[last-1], a[last]; knownOs[x] && knownArch[y] {\n\t\t\treturn x != ctx.GOOS || y != ctx.GOARCH\n\t\t}\n", Benign: true},
+		mutant{Name: "cycle-test-and-mark-use-different-keys", Prop: "C16", File: "interp/src.go", Old: "\tif interp.rdir[importPath] {\n", New: "\tcycleKey := importPath\n\tif isPathRelative(importPath) {\n\t\tcycleKey = dir\n\t}\n\tif interp.rdir[cycleKey] {\n", Rule: "R16.1", Key: "importSrc/cycle-key"},
+		mutant{Name: "previous-root-cuts-at-vendor-before-searching", Prop: "C16", File: "interp/src.go", Old: "\t// TODO(mpl): maybe it works for the special case main, but can't be bothered for now.\n", New: "\tfor i, e := range strings.Split(root, string(filepath.Separator)) {\n\t\tif e == vendor && i > 0 {\n\t\t\treturn filepath.Join(strings.Split(root, string(filepath.Separator))[:i]...), nil\n\t\t}\n\t}\n", Rule: "R16.2", Key: "previousRoot/closest-vendor-first"},
+		mutant{Name: "unary-operand-of-return-writes-result-slot-unguarded", Prop: "C02", File: "interp/cfg.go", Old: "\t\t\tcase directReturn(n, sc.def):\n\t\t\t\tpos := childPos(n)\n", New: "\t\t\tcase n.anc.kind == returnStmt:\n\t\t\t\tpos := childPos(n)\n", Rule: "R02.8", Key: "cfg/case:unaryExpr/return-direct-store#1"},
+		mutant{Name: "builtin-operand-of-return-always-in-first-result", Prop: "C02", File: "interp/cfg.go", Old: "\t\t\t\tcase directReturn(n, sc.def):\n\t\t\t\t\t// Store result directly to frame output location, to avoid a frame copy.\n\t\t\t\t\tn.findex = childPos(n)\n", New: "\t\t\t\tcase n.anc.kind == returnStmt:\n\t\t\t\t\t// Store result directly to frame output location, to avoid a frame copy.\n\t\t\t\t\tn.findex = 0\n", Rule: "R02.8", Key: "cfg/case:callExpr/return-direct-store#2/slot-index"},
+		mutant{Name: "bin-call-of-return-writes-by-position-unguarded", Prop: "C02", File: "interp/run.go", Old: "\t\tcase n.anc.action == aReturn && directReturn(n, n.anc.val.(*node)):\n", New: "\t\tcase n.anc.action == aReturn:\n", Rule: "R02.8", Key: "callBin/slot-from-position"},
+		mutant{Name: "return-sets-results-in-turn-with-named-results", Prop: "C01", File: "interp/run.go", Old: "\tif len(child) > 1 && !mustReturnValue(def.child[2]) {\n", New: "\tif len(child) > 3 && !mustReturnValue(def.child[2]) {\n", Rule: "R01.7", Key: "_return/closure#2/operands-before-results"},
+		mutant{Name: "uintptr-missing-from-inc", Prop: "C02", File: "interp/op.go", Old: "\tcase reflect.Uint, reflect.Uint8, reflect.Uint16, reflect.Uint32, reflect.Uint64, reflect.Uintptr:\n\t\tv0 := genValueUint(c0)\n\t\tn.exec = func(f *frame) bltn {\n\t\t\tv, i := v0(f)\n\t\t\tv.SetUint(i + 1)", New: "\tcase reflect.Uint, reflect.Uint8, reflect.Uint16, reflect.Uint32, reflect.Uint64:\n\t\tv0 := genValueUint(c0)\n\t\tn.exec = func(f *frame) bltn {\n\t\t\tv, i := v0(f)\n\t\t\tv.SetUint(i + 1)", Rule: "R02.3", Key: "inc/kind-class-complete"},
+		mutant{Name: "scan-continues-after-selecting-a-variable", Prop: "C15", File: "interp/cfg.go", Old: "\t\t\tif canInit {\n\t\t\t\tnext = i\n\t\t\t\tbreak\n\t\t\t}\n", New: "\t\t\tif canInit {\n\t\t\t\tnext = i\n\t\t\t\tvarNode.child = append(varNode.child, n)\n\t\t\t\tinited[n] = true\n\t\t\t}\n", Rule: "R15.6", Key: "genGlobalVarDecl/earliest-ready-first"},
+		mutant{Name: "global-redefinition-reuses-slot", Prop: "C11", File: "interp/gta.go", Old: "sc.sym[dest.ident] = &symbol{kind: varSym, global: true, index: sc.add(typ), typ: typ, rval: val, node: n}", New: "sc.sym[dest.ident] = &symbol{kind: varSym, global: true, index: slotFor(sc, dest.ident, typ), typ: typ, rval: val, node: n}",
+			More: [][2]string{{"func baseType(t *itype) *itype {", "func slotFor(sc *scope, ident string, typ *itype) int {\n\tif sym, ok := sc.sym[ident]; ok && sym.kind == varSym && sym.global {\n\t\treturn sym.index\n\t}\n\treturn sc.add(typ)\n}\n\nfunc baseType(t *itype) *itype {"}}, Rule: "R11.6", Key: "gta/global-var-symbol#1/fresh-slot"},
+		mutant{Name: "function-redefinition-updates-symbol-in-place", Prop: "C11", File: "interp/gta.go", Old: "\t\t\t\tsc.sym[ident] = &symbol{kind: funcSym, typ: n.typ, node: n, index: -1}\n", New: "\t\t\t\tif sym, ok := sc.sym[ident]; ok && sym.kind == funcSym {\n\t\t\t\t\tsym.typ, sym.node = n.typ, n\n\t\t\t\t} else {\n\t\t\t\t\tsc.sym[ident] = &symbol{kind: funcSym, typ: n.typ, node: n, index: -1}\n\t\t\t\t}\n", Rule: "R11.6", Key: "gta/symbol-node-repointed"},
+		mutant{Name: "readiness-waits-for-variables-of-earlier-evaluations", Prop: "C11", File: "interp/cfg.go", Old: "\t\t\t\tif current[d] && !inited[d] {\n", New: "\t\t\t\tif !inited[d] {\n", Rule: "R11.7", Key: "genGlobalVarDecl/readiness#1/batch-only"},
+		mutant{Name: "multi-value-var-symbols-not-tracked", Prop: "C15", File: "interp/gta.go", Old: "\t\t\t\t\tsym.global = true\n\t\t\t\t\tsym.node = n\n", New: "\t\t\t\t\tsym.global = true\n", Rule: "R15.7", Key: "gta/case:defineXStmt/var-symbol-tracked"},
+		mutant{Name: "land-false-outcome-leaves-result-stale", Prop: "C01", File: "interp/run.go", Old: "\t\t\tif value0(f).Bool() && value1(f).Bool() {\n\t\t\t\tdest(f).SetBool(true)\n\t\t\t\treturn tnext\n\t\t\t}\n\t\t\tdest(f).SetBool(false)\n\t\t\treturn fnext\n", New: "\t\t\tif value0(f).Bool() && value1(f).Bool() {\n\t\t\t\tdest(f).SetBool(true)\n\t\t\t\treturn tnext\n\t\t\t}\n\t\t\treturn fnext\n", Rule: "R01.8", Key: "land/closure#1/result-stored-on-every-path"},
+		mutant{Name: "map-index-miss-leaves-result-stale", Prop: "C01", File: "interp/run.go", Old: "\t\t\t\tif v := value0(f).MapIndex(value1(f)); v.IsValid() {\n\t\t\t\t\tdest(f).Set(v)\n\t\t\t\t} else {\n\t\t\t\t\tdest(f).Set(z)\n\t\t\t\t}\n", New: "\t\t\t\tif v := value0(f).MapIndex(value1(f)); v.IsValid() {\n\t\t\t\t\tdest(f).Set(v)\n\t\t\t\t}\n", Rule: "R01.8", Key: "getIndexMap/closure#4/result-stored-on-every-path"},
 		// ---- C18
 		mutant{Name: "var-bound-by-value-in-generator", Prop: "C18", File: "extract/extract.go", Old: "\t\t\tval[name] = Val{pname, true}", New: "\t\t\tval[name] = Val{pname, false}", Rule: "R18.2", Key: "genContent/addr-only-for-vars"},
 		mutant{Name: "template-forwards-wrong-field", Prop: "C18", File: "extract/extract.go", Old: "\t\t\t{{- $m.Ret}} W.W{{$m.Name}}{{$m.Arg -}}", New: "\t\t\t{{- $m.Ret}} W.{{$m.Name}}{{$m.Arg -}}", Rule: "R18.3", Key: "model/wrapper-method"},
